@@ -1,4 +1,5 @@
-(* Finding (C20) on the faithful model.  NOT imported by Props/.
+(* HISTORICAL RECORD: finding F13 (C20) on the model of the tree BEFORE /repo commit c28dd13, i.e. with the source-derived
+   flag old_idler pinned to its old value true.  NOT imported by Props/; no check depends on this file.
    SPDC::try_as_optimum computes the idler waist position from `self.idler` -- the OLD idler -- although it replaces the idler by
    the optimum one in the same struct expression (src/spdc/spdc_obj.rs, try_as_optimum: `idler_waist_position:
    self.crystal_setup.optimal_waist_position(self.idler.vacuum_wavelength(), self.idler.polarization())`).
@@ -25,18 +26,18 @@ Definition s_w : spdc Q :=
      s_pump := mk_beam Extraordinary (775 # 1000000000);
      s_bandwidth := 1; s_power := 1; s_threshold := 1 # 100; s_pp := PolOff; s_zs := 0; s_zi := 0; s_deff := 1 |}.
 
-Definition once := try_as_optimum Q_ops K_w (1 # 1000000000000) optimum_idler_sees_old_poling optimum_waist_sees_old_idler s_w.
+Definition once := try_as_optimum Q_ops K_w (1 # 1000000000000) true true s_w.
 
 Lemma C20_idempotent_unconditional_refuted :
   exists s1 nf1 s2 nf2,
-    try_as_optimum Q_ops K_w (1 # 1000000000000) optimum_idler_sees_old_poling optimum_waist_sees_old_idler s_w = Ok (s1, nf1) /\
-    try_as_optimum Q_ops K_w (1 # 1000000000000) optimum_idler_sees_old_poling optimum_waist_sees_old_idler s1 = Ok (s2, nf2) /\
+    try_as_optimum Q_ops K_w (1 # 1000000000000) true true s_w = Ok (s1, nf1) /\
+    try_as_optimum Q_ops K_w (1 # 1000000000000) true true s1 = Ok (s2, nf2) /\
     Qeq_bool (s_zi s1) (s_zi s2) = false /\
     (* first: from the old idler's 1500 nm; second: from the energy-conserving 1550 nm *)
     Qeq_bool (s_zi s1) (- (1500 # 1000000000)) = true /\ Qeq_bool (s_zi s2) (- (1550 # 1000000000)) = true.
 Proof.
   destruct once as [[s1 nf1] | |] eqn:H1; try (vm_compute in H1; discriminate).
-  destruct (try_as_optimum Q_ops K_w (1 # 1000000000000) optimum_idler_sees_old_poling optimum_waist_sees_old_idler s1) as [[s2 nf2] | |] eqn:H2.
+  destruct (try_as_optimum Q_ops K_w (1 # 1000000000000) true true s1) as [[s2 nf2] | |] eqn:H2.
   - exists s1, nf1, s2, nf2. split; [exact H1 |]. split; [exact H2 |].
     vm_compute in H1. inversion H1. subst s1. vm_compute in H2. inversion H2. subst s2. vm_compute. auto.
   - vm_compute in H1. inversion H1. subst. vm_compute in H2. discriminate.
